@@ -228,7 +228,7 @@ class Executor:
                 terms.append(FALSE)
             elif z3.is_bv_sort(s):
                 terms.append(z3.BitVecVal(0, s.size()))
-            elif z3.is_array_sort(s):
+            elif isinstance(s, z3.ArraySortRef):
                 r = s.range()
                 zero = FALSE if r == z3.BoolSort() else z3.BitVecVal(0, r.size())
                 terms.append(z3.K(s.domain(), zero))
